@@ -53,15 +53,18 @@ def iterate(text, loop_id):
         for node in src.iter_segments(loop_id):
             segs = [(d['segment'].format(), d['seg_count'], d['cur_line_number']) for d in node.iterate_segments()]
             nest = []
+            starts = {}          # id(loop instance) -> index (in this tree) of the first segment it holds
 
-            def walk(n, loops):
+            def walk(n, loops, insts):
                 if n.type == 'loop':
                     for ch in n.children:
                         if ch.type is not None:
-                            walk(ch, loops + [n.id])
+                            walk(ch, loops + [n.id], insts + [id(n)])
                 elif n.type == 'seg':
-                    nest.append(loops)
-            walk(node, [])
+                    for i_ in insts:
+                        starts.setdefault(i_, len(nest))
+                    nest.append((loops, starts[insts[-1]] if insts else None))
+            walk(node, [], [])
             out.append(('L' if node.type == 'loop' else 'S', node.id, segs, nest))
     except Exception as e:  # noqa
         return out, '%s: %s' % (type(e).__name__, str(e)[:80])
@@ -139,15 +142,23 @@ def oracle_doc(report, rng, thorough, what, text, only_loop_ids=None):
                     break
                 if k == 'L':
                     bad = None
-                    for j, loops in enumerate(nest):
+                    merged = None
+                    for j, (loops, inst_start) in enumerate(nest):
                         path = rows[pos + j][3]
                         want_loops = path[path.index(lid):] if lid in path else None
                         if loops != want_loops:
                             bad = (j, loops, want_loops)
                             break
+                        # a segment that opens an instance of its loop is the first segment of the loop node that holds it
+                        if rows[pos + j][4] and inst_start != j and merged is None:
+                            merged = (j, path[-1], inst_start)
                     if bad:
                         report.fail('C09:arrangement:%s' % ('envelope' if lid in ('ISA_LOOP', 'GS_LOOP', 'ST_LOOP') else 'body'),
                                     'segment %d of a tree sits under loops %r but matched the map path %r' % bad, inp)
+                        break
+                    if merged:
+                        report.fail('C09:instances-merged:%s' % ('envelope' if lid in ('ISA_LOOP', 'GS_LOOP', 'ST_LOOP') else 'body'),
+                                    'segment %d opens an instance of loop %s but sits in a loop node that began at segment %d' % merged, inp)
                         break
                 pos += len(segs)
 
@@ -173,6 +184,11 @@ def run(ctx, report):
         n_isa, n_gs, n_st = rng.choice([(1, 1, 1), (1, 1, 2), (1, 2, 1), (2, 1, 1)])
         segs, d = walk_gen.map_document(rng, name, None, n_isa=n_isa, n_gs=n_gs, n_st=n_st, p_seg=0.2, p_loop=0.3, max_segs=40)
         docs.append(('map:%s:%d/%d/%d' % (name, n_isa, n_gs, n_st), walk_gen.encode_document(rng, segs, d)))
+    for k in range(40 if thorough else 10):
+        # every loop twice and hardly any optional segment: back-to-back loop instances that consist of their first segment only
+        name = rng.choice(names)
+        segs, d = walk_gen.map_document(rng, name, None, p_seg=rng.choice([0.0, 0.05]), p_loop=0.5, max_segs=60, loop_twice=True)
+        docs.append(('map-bare-twice:%s' % name, walk_gen.encode_document(rng, segs, d)))
     for ck, text in pipe_gen.corpus_docs():
         docs.append(('corpus:' + ck, text))
     for what, text in docs:
